@@ -7,6 +7,7 @@ import GoagModel.Dir
 import GoagModel.JsonModel
 import GoagModel.Naming
 import GoagModel.Resp
+import GoagModel.RespHdr
 import GoagModel.Alias
 import GoagModel.Props.C08b
 /-
@@ -42,6 +43,58 @@ def parseMulti (s : String) (hexKeys : Bool) : List (String × List String) :=
     match kv.splitOn "=" with
     | [k, vs] => some (if hexKeys then unhexD k else k, if vs.isEmpty then [] else (vs.splitOn ",").map (fun v => unhexD (v.drop 1).toString))
     | _ => none)
+
+/-! ### C10: response header values (`Goag.RespHdr`) -/
+
+def hdrType? : String → Option RespHdr.HType
+  | "int0" => some (.int 0)
+  | "int32" => some (.int 32)
+  | "int64" => some (.int 64)
+  | "bool" => some .bool
+  | "str" => some .str
+  | _ => none
+
+/-- a field line token `x<hex>`; string payloads stay hex (the model copies them verbatim) -/
+def hdrLine (t : RespHdr.HType) (tok : String) : Str :=
+  let h := (tok.drop 1).toString
+  match t with
+  | .str => h.toList
+  | _ => (unhexD h).toList
+
+def hdrLines (t : RespHdr.HType) (s : String) : List Str :=
+  if s == "-" then [] else (s.splitOn ",").map (hdrLine t)
+
+def hdrLeaf? (t : RespHdr.HType) (s : String) : Option RespHdr.Leaf :=
+  match t with
+  | .int _ => s.toInt?.map RespHdr.Leaf.int
+  | .bool => if s == "true" then some (.bool true) else if s == "false" then some (.bool false) else none
+  | .str => if s.startsWith "x" then some (.str (s.drop 1).toString.toList) else none
+
+def hdrVal? (t : RespHdr.HType) (s : String) : Option RespHdr.HVal :=
+  if s == "u" then some .unset
+  else if s.startsWith "o:" then (hdrLeaf? t (s.drop 2).toString).map RespHdr.HVal.one
+  else if s.startsWith "m:" then
+    let r := (s.drop 2).toString
+    if r.isEmpty then some (.many []) else ((r.splitOn ",").mapM (hdrLeaf? t)).map RespHdr.HVal.many
+  else none
+
+def renderLeaf : RespHdr.Leaf → String
+  | .int v => toString v
+  | .bool b => if b then "true" else "false"
+  | .str s => "x" ++ String.ofList s
+
+def renderHVal : Except RespHdr.RErr RespHdr.HVal → String
+  | .ok .unset => "u"
+  | .ok (.one l) => "o:" ++ renderLeaf l
+  | .ok (.many ls) => "m:" ++ ",".intercalate (ls.map renderLeaf)
+  | .error .required => "err:required"
+  | .error .multiple => "err:multiple"
+  | .error .parse => "err:parse"
+
+def renderLines (t : RespHdr.HType) (ls : List Str) : String :=
+  if ls.isEmpty then "-" else ",".intercalate (ls.map (fun l => match t with
+    | .str => "x" ++ String.ofList l
+    | _ => "x" ++ hexOfStr l))
 
 def flag (s : String) : Bool := s == "1"
 
@@ -264,6 +317,15 @@ def handle (st : State) (fields : List String) : IO (State × String) := do
           | .default => "default"
           | .notImplemented => "not-implemented"
         pure (st, s!"{id}\t{arm}")
+  | ["hdrrt", id, ty, arr, req, lines, sent] =>
+    match hdrType? ty with
+    | none => pure (st, s!"{id}\tunmodelled")
+    | some t =>
+      let d : RespHdr.HDecl := { ty := t, array := flag arr, required := flag req }
+      let rd := renderHVal (RespHdr.readLines d (hdrLines t lines))
+      match hdrVal? t sent with
+      | none => pure (st, s!"{id}\tbad-value\t{rd}")
+      | some v => pure (st, s!"{id}\t{renderLines t (RespHdr.writeLines v)}\t{rd}")
   | ["dirrun", id, init, hist] => pure (st, s!"{id}\t{dirRun init hist}")
   | ["leaf", tag, lexHex, res] =>
     pure ({ st with leaf := ((tag, unhexD lexHex), if res == "none" then none else some res) :: st.leaf }, "leaf-ok")
